@@ -5,9 +5,9 @@ package main
 
 import (
 	"fmt"
-	"os"
 	"go/token"
 	"go/types"
+	"os"
 	"sort"
 	"strings"
 
@@ -263,10 +263,10 @@ func checkC06(c *Ctx) {
 	}
 	m := t.m
 	const D1, V1, G1, V2 = "C06.D1", "C06.V1", "C06.G1", "C06.V2"
-	c.Rule(D1, "identifier spaces at the backend / synchroniser boundary and at conversions", 9)
-	c.Rule(V1, "point-to-point destination depends on the session's agreed list", 2)
-	c.Rule(G1, "duplicate party refused; result sorted", 3)
-	c.Rule(V2, "Init's list derives from the duplicate-checked translation", 2)
+	c.Rule(D1, "identifier spaces at the backend / synchroniser boundary and at conversions", 4)
+	c.Rule(V1, "point-to-point destination depends on the session's agreed list", 1)
+	c.Rule(G1, "duplicate party refused; result sorted", 1)
+	c.Rule(V2, "Init's list derives from the duplicate-checked translation", 1)
 	sa := &spaceAnalysis{t: t, roles: map[ssa.Value]idSpace{}, memo: map[ssa.Value]spaceSet{}, busy: map[ssa.Value]bool{}}
 	sa.seedRoles()
 
@@ -386,7 +386,7 @@ func checkC06(c *Ctx) {
 
 	// ------------------------------------------------------------------ V3: party→node maps file a node under ITS party
 	const V3 = "C06.V3"
-	c.Rule(V3, "party→node maps are keyed by the translation of the very node they store", 2)
+	c.Rule(V3, "party→node maps are keyed by the translation of the very node they store", 1)
 	nRev := 0
 	for _, fn := range t.fns {
 		for _, in := range instrsOf(fn) {
